@@ -359,7 +359,7 @@ def coq_cols(cols):
     return "[" + "; ".join(one(c) for c in cols) + "]"
 
 
-HOOK_PREFIXES = ["verif:translate_wildcards ", "verif:deduplicate_select_items ", "verif:select_item ", "verif:select_items ", "verif:pq-names "]
+HOOK_PREFIXES = ["verif:translate_wildcards ", "verif:deduplicate_select_items ", "verif:select_item ", "verif:select_items ", "verif:pq-names ", "verif:extract_atomic "]
 _hook_cache = {}
 
 
@@ -613,6 +613,43 @@ def selectitems_stream(ck, srcs, targets=("sql.sqlite", "sql.duckdb", "sql.bigqu
                              "model": repr(got)[:1500], "prql": src, "target": target}, lambda c: None)
 
 
+def limit_stream(ck, srcs, targets=("sql.sqlite", "sql.duckdb")):
+    """Tie for Model/LimitSelect.v: every real call of extract_atomic (hook verif:extract_atomic): the decision to append a limiting
+    SELECT (`extra`) vs has_extra, and the hypothesis of c05_closing_select_exact_partial -- when no limiting SELECT is appended
+    the atomic pipeline's own Select must BE the requested list."""
+    reqs, ans = hook_events(srcs, targets)
+    calls = {}
+    for rq, a in zip(reqs, ans):
+        for e in a.get("entries", []):
+            m = e.get("Message") or ""
+            if m.startswith("verif:extract_atomic "):
+                d = json.loads(m[len("verif:extract_atomic "):])
+                calls.setdefault(json.dumps([d["output_redirected"], d["select_cols"]]), (d, rq["src"], rq["target"]))
+    keys = sorted(calls)
+    ck.coverage["extract_atomic_calls_distinct"] = len(keys)
+    if not keys:
+        ck.violation("no verif:extract_atomic event was produced: the hook is missing from this tree", {"kind": "missing-hook", "hooks": ["extract_atomic"]}, no_input=True)
+        return
+    header = "From Coq Require Import List Arith.\nFrom PV Require Import Model.Wildcards Model.LimitSelect.\nImport ListNotations.\n"
+    lst = lambda xs: "[" + "; ".join(str(x) for x in xs) + "]"
+    exprs = ["(has_extra %s %s, map N.of_nat (closing_select %s %s))" % (lst(calls[k][0]["output_redirected"]), lst(calls[k][0]["select_cols"]),
+                                                                        lst(calls[k][0]["output_redirected"]), lst(calls[k][0]["select_cols"])) for k in keys]
+    header = "From Coq Require Import List Arith NArith.\nFrom PV Require Import Model.Wildcards Model.LimitSelect.\nImport ListNotations.\n"
+    vals = coq_eval(header, exprs)
+    for k, v in zip(keys, vals):
+        d, src, target = calls[k]
+        ck.count("limit", k, nontrivial=d["extra"])
+        ck.stat("limit", "extra" if d["extra"] else "plain")
+        if v is None or bool(v[0]) != bool(d["extra"]):
+            ck.disagreement("extract_atomic: the limiting-SELECT decision differs from Model/LimitSelect.has_extra (program %s) [%s]" % (src.replace("\n", " | ")[:200], target),
+                            {"event": d, "model": repr(v), "prql": src, "target": target}, lambda c: None)
+        elif not d["extra"] and d["select_cols"] != d["output_redirected"]:
+            ck.stat("limit", "plain-but-select-differs-from-output")
+            ck.disagreement("extract_atomic: no limiting SELECT, but the atomic pipeline selects %s where %s was asked for (program %s) [%s]"
+                            % (d["select_cols"], d["output_redirected"], src.replace("\n", " | ")[:200], target),
+                            {"event": d, "prql": src, "target": target}, lambda c: None)
+
+
 def star_stream(ck, recs, targets=("sql.duckdb", "sql.bigquery", "sql.snowflake")):
     """Result columns on dialects that HAVE a column-exclusion facility (`* EXCLUDE (..)`, `* EXCEPT (..)`), which we
     cannot execute here: the emitted SQL is parsed (sqlparser) and every `*` / `tbl.*` [EXCLUDE|EXCEPT] is expanded
@@ -862,6 +899,7 @@ def run():
     wildcard_stream(ck, srcs)
     dedup_stream(ck, srcs)
     selectitems_stream(ck, srcs)
+    limit_stream(ck, srcs)
     star_stream(ck, recs)
     sstring_stream(ck, ck.n(60, 600) * (3 if broken else 1))
     import os as _os
